@@ -60,6 +60,24 @@ def sampleSize (delta : Rat) : Nat := ((1 / delta + 1/2).floor).toNat
 
 def doProject (rat : Bool) (pt : List Rat) : List Rat := if rat then project pt else pt
 
+/-- VANISHING WEIGHT FUNCTION (statement audit 5, K1 / X3 / S5 / X6): a rational evaluation divides the homogeneous point
+    by its last coordinate `W(u)`; the setters accept weights of mixed sign, `W` can then vanish inside the domain and
+    the code raises `ZeroDivisionError` (the model's `x / 0 = 0` would go on): the rational ops answer `ERR` when the
+    evaluated weight is 0 -/
+def wZero (rat : Bool) (pt : List Rat) : Bool := rat && pt.getLastD 0 == 0
+def cWZero (rat : Bool) (p : Nat) (U : List Rat) (P : List (List Rat)) (u : Rat) : Bool :=
+  wZero rat (curvePoint p (fn U) P u)
+def cWZeroR (rat : Bool) (p : Nat) (U : List Rat) (P : List (List Rat)) (u : Rat) : Bool :=
+  wZero rat (curvePointR p (fn U) P u)
+def sWZero (rat : Bool) (pu pv : Nat) (Uu Uv : List Rat) (su sv : Nat) (P : List (List Rat)) (u v : Rat) : Bool :=
+  wZero rat (surfacePoint pu pv (fn Uu) (fn Uv) su sv P u v)
+def sWZeroR (rat : Bool) (pu pv : Nat) (Uu Uv : List Rat) (su sv : Nat) (P : List (List Rat)) (u v : Rat) : Bool :=
+  wZero rat (surfacePointR pu pv (fn Uu) (fn Uv) su sv P u v)
+def vWZero (rat : Bool) (pu pv pw : Nat) (Uu Uv Uw : List Rat) (su sv sw : Nat) (P : List (List Rat)) (u v w : Rat) : Bool :=
+  wZero rat (volumePoint pu pv pw (fn Uu) (fn Uv) (fn Uw) su sv sw P u v w)
+def vWZeroR (rat : Bool) (pu pv pw : Nat) (Uu Uv Uw : List Rat) (su sv sw : Nat) (P : List (List Rat)) (u v w : Rat) : Bool :=
+  wZero rat (volumePointR pu pv pw (fn Uu) (fn Uv) (fn Uw) su sv sw P u v w)
+
 def handleBasic : List String → Option String
   | ["span", kind, p, n, us, u] => do
       let p ← p.toNat?; let n ← n.toNat?; let U ← parseList us; let u ← parseRat u
@@ -123,15 +141,18 @@ def handleBasic : List String → Option String
   | ["ceval", rat, p, us, ps, u] => do
       let p ← p.toNat?; let U ← parseList us; let P ← parsePts ps; let u ← parseRat u
       if !(okKv p P.length U && inDom p P.length U u) then return "ERR"
+      if wZero (rat == "1") (curvePoint p (fn U) P u) then return "ERR"
       return showList (doProject (rat == "1") (curvePoint p (fn U) P u))
   | ["cevalr", rat, p, us, ps, u] => do
       let p ← p.toNat?; let U ← parseList us; let P ← parsePts ps; let u ← parseRat u
       if !(okKv p P.length U && inDomR p P.length U u) then return "ERR"
+      if wZero (rat == "1") (curvePointR p (fn U) P u) then return "ERR"
       return showList (doProject (rat == "1") (curvePointR p (fn U) P u))
   | ["sevalr", rat, pu, pv, uus, uvs, su, sv, ps, u, v] => do
       let pu ← pu.toNat?; let pv ← pv.toNat?; let Uu ← parseList uus; let Uv ← parseList uvs
       let su ← su.toNat?; let sv ← sv.toNat?; let P ← parsePts ps; let u ← parseRat u; let v ← parseRat v
       if !(okKv pu su Uu && okKv pv sv Uv && inDomR pu su Uu u && inDomR pv sv Uv v && P.length == su * sv) then return "ERR"
+      if wZero (rat == "1") (surfacePointR pu pv (fn Uu) (fn Uv) su sv P u v) then return "ERR"
       return showList (doProject (rat == "1") (surfacePointR pu pv (fn Uu) (fn Uv) su sv P u v))
   | ["vevalr", rat, pu, pv, pw, uus, uvs, uws, su, sv, sw, ps, u, v, w] => do
       let pu ← pu.toNat?; let pv ← pv.toNat?; let pw ← pw.toNat?
@@ -140,11 +161,13 @@ def handleBasic : List String → Option String
       let P ← parsePts ps; let u ← parseRat u; let v ← parseRat v; let w ← parseRat w
       if !(okKv pu su Uu && okKv pv sv Uv && okKv pw sw Uw && inDomR pu su Uu u && inDomR pv sv Uv v
            && inDomR pw sw Uw w && P.length == su * sv * sw) then return "ERR"
+      if wZero (rat == "1") (volumePointR pu pv pw (fn Uu) (fn Uv) (fn Uw) su sv sw P u v w) then return "ERR"
       return showList (doProject (rat == "1") (volumePointR pu pv pw (fn Uu) (fn Uv) (fn Uw) su sv sw P u v w))
   | ["seval", rat, pu, pv, uus, uvs, su, sv, ps, u, v] => do
       let pu ← pu.toNat?; let pv ← pv.toNat?; let Uu ← parseList uus; let Uv ← parseList uvs
       let su ← su.toNat?; let sv ← sv.toNat?; let P ← parsePts ps; let u ← parseRat u; let v ← parseRat v
       if !(okKv pu su Uu && okKv pv sv Uv && inDom pu su Uu u && inDom pv sv Uv v && P.length == su * sv) then return "ERR"
+      if wZero (rat == "1") (surfacePoint pu pv (fn Uu) (fn Uv) su sv P u v) then return "ERR"
       return showList (doProject (rat == "1") (surfacePoint pu pv (fn Uu) (fn Uv) su sv P u v))
   | ["veval", rat, pu, pv, pw, uus, uvs, uws, su, sv, sw, ps, u, v, w] => do
       let pu ← pu.toNat?; let pv ← pv.toNat?; let pw ← pw.toNat?
@@ -153,10 +176,12 @@ def handleBasic : List String → Option String
       let P ← parsePts ps; let u ← parseRat u; let v ← parseRat v; let w ← parseRat w
       if !(okKv pu su Uu && okKv pv sv Uv && okKv pw sw Uw && inDom pu su Uu u && inDom pv sv Uv v
            && inDom pw sw Uw w && P.length == su * sv * sw) then return "ERR"
+      if wZero (rat == "1") (volumePoint pu pv pw (fn Uu) (fn Uv) (fn Uw) su sv sw P u v w) then return "ERR"
       return showList (doProject (rat == "1") (volumePoint pu pv pw (fn Uu) (fn Uv) (fn Uw) su sv sw P u v w))
   | ["cders", rat, p, us, ps, u, ord] => do
       let p ← p.toNat?; let U ← parseList us; let P ← parsePts ps; let u ← parseRat u; let ord ← ord.toNat?
       if !(okKv p P.length U && inDom p P.length U u) then return "ERR"
+      if cWZero (rat == "1") p U P u then return "ERR"
       let CK := curveDers p (fn U) P u ord
       return showPts (if rat == "1" then ratCurveDers CK else CK)
   | ["sders", rat, tri, pu, pv, uus, uvs, su, sv, ps, u, v, ord] => do
@@ -164,12 +189,14 @@ def handleBasic : List String → Option String
       let su ← su.toNat?; let sv ← sv.toNat?; let P ← parsePts ps; let u ← parseRat u; let v ← parseRat v
       let ord ← ord.toNat?
       if !(okKv pu su Uu && okKv pv sv Uv && inDom pu su Uu u && inDom pv sv Uv v && P.length == su * sv) then return "ERR"
+      if sWZero (rat == "1") pu pv Uu Uv su sv P u v then return "ERR"
       let S := surfaceDersAt pu pv (fn Uu) (fn Uv) sv P (findSpanLinear pu (fn Uu) su u) (findSpanLinear pv (fn Uv) sv v) u v ord (tri == "1")
       return showPts2 (if rat == "1" then ratSurfaceDers S ord else S)
   -- derivatives on the span the REPAIRED search finds (`curveDersR` / `surfaceDersR`, Model/SpanRGrid.lean)
   | ["cdersr", rat, p, us, ps, u, ord] => do
       let p ← p.toNat?; let U ← parseList us; let P ← parsePts ps; let u ← parseRat u; let ord ← ord.toNat?
       if !(okKv p P.length U && inDomR p P.length U u) then return "ERR"
+      if cWZeroR (rat == "1") p U P u then return "ERR"
       let CK := curveDersR p (fn U) P u ord
       return showPts (if rat == "1" then ratCurveDers CK else CK)
   | ["sdersr", rat, tri, pu, pv, uus, uvs, su, sv, ps, u, v, ord] => do
@@ -177,6 +204,7 @@ def handleBasic : List String → Option String
       let su ← su.toNat?; let sv ← sv.toNat?; let P ← parsePts ps; let u ← parseRat u; let v ← parseRat v
       let ord ← ord.toNat?
       if !(okKv pu su Uu && okKv pv sv Uv && inDomR pu su Uu u && inDomR pv sv Uv v && P.length == su * sv) then return "ERR"
+      if sWZeroR (rat == "1") pu pv Uu Uv su sv P u v then return "ERR"
       let S := surfaceDersR pu pv (fn Uu) (fn Uv) su sv P u v ord (tri == "1")
       return showPts2 (if rat == "1" then ratSurfaceDers S ord else S)
   | ["bbox", ps] => do
@@ -189,17 +217,20 @@ def handleBasic : List String → Option String
       if !(okKv p P.length U) || dl ≤ 0 || lastSpanEmpty p P.length U then return "ERR"
       let n := sampleSize dl
       let ks := linspace (fn U p) (fn U P.length) n tolMult
+      if ks.any (fun u => cWZero (rat == "1") p U P u) then return "ERR"
       return showPts (curveGrid (rat == "1") p (fn U) P ks)
   -- `evaluate_list` / sampled grids through the REPAIRED search (`curveGridR` / `surfaceGridR` / `volumeGridR`)
   | ["clistr", rat, p, us, ps, params] => do
       let p ← p.toNat?; let U ← parseList us; let P ← parsePts ps; let ks ← parseList params
       if !(okKv p P.length U) || ks.any (fun u => !(inDomR p P.length U u)) then return "ERR"
+      if ks.any (fun u => cWZeroR (rat == "1") p U P u) then return "ERR"
       return showPts (curveGridR (rat == "1") p (fn U) P ks)
   | ["cgridr", rat, p, us, ps, delta] => do
       let p ← p.toNat?; let U ← parseList us; let P ← parsePts ps; let dl ← parseRat delta
       if !(okKv p P.length U) || dl ≤ 0 || !(domR p P.length U) then return "ERR"
       let n := sampleSize dl
       let ks := linspace (fn U p) (fn U P.length) n tolMult
+      if ks.any (fun u => cWZeroR (rat == "1") p U P u) then return "ERR"
       return showPts (curveGridR (rat == "1") p (fn U) P ks)
   | ["sgridr", rat, pu, pv, uus, uvs, su, sv, ps, du, dv] => do
       let pu ← pu.toNat?; let pv ← pv.toNat?; let Uu ← parseList uus; let Uv ← parseList uvs
@@ -208,6 +239,7 @@ def handleBasic : List String → Option String
           || !(domR pu su Uu) || !(domR pv sv Uv) then return "ERR"
       let kus := linspace (fn Uu pu) (fn Uu su) (sampleSize du) tolMult
       let kvs := linspace (fn Uv pv) (fn Uv sv) (sampleSize dv) tolMult
+      if kus.any (fun u => kvs.any (fun v => sWZeroR (rat == "1") pu pv Uu Uv su sv P u v)) then return "ERR"
       return showPts (surfaceGridR (rat == "1") pu pv (fn Uu) (fn Uv) su sv P kus kvs)
   | ["vgridr", rat, pu, pv, pw, uus, uvs, uws, su, sv, sw, ps, du, dv, dw] => do
       let pu ← pu.toNat?; let pv ← pv.toNat?; let pw ← pw.toNat?
@@ -219,12 +251,14 @@ def handleBasic : List String → Option String
       let kus := linspace (fn Uu pu) (fn Uu su) (sampleSize du) tolMult
       let kvs := linspace (fn Uv pv) (fn Uv sv) (sampleSize dv) tolMult
       let kws := linspace (fn Uw pw) (fn Uw sw) (sampleSize dw) tolMult
+      if kus.any (fun u => kvs.any (fun v => kws.any (fun w => vWZeroR (rat == "1") pu pv pw Uu Uv Uw su sv sw P u v w))) then return "ERR"
       return showPts (volumeGridR (rat == "1") pu pv pw (fn Uu) (fn Uv) (fn Uw) su sv sw P kus kvs kws)
   | ["clen", rat, p, us, ps, delta, evs, ds] => do
       let p ← p.toNat?; let U ← parseList us; let P ← parsePts ps; let dl ← parseRat delta
       let E ← parsePts evs; let D ← parseList ds
       if !(okKv p P.length U) || dl ≤ 0 || lastSpanEmpty p P.length U then return "ERR"
       let ks := linspace (fn U p) (fn U P.length) (sampleSize dl) tolMult
+      if ks.any (fun u => cWZero (rat == "1") p U P u) then return "ERR"
       let pts := curveGrid (rat == "1") p (fn U) P ks
       if pts != E then return "GRID"
       if D.length + 1 != pts.length then return "DISTS"
@@ -237,6 +271,7 @@ def handleBasic : List String → Option String
           || lastSpanEmpty pu su Uu || lastSpanEmpty pv sv Uv then return "ERR"
       let kus := linspace (fn Uu pu) (fn Uu su) (sampleSize du) tolMult
       let kvs := linspace (fn Uv pv) (fn Uv sv) (sampleSize dv) tolMult
+      if kus.any (fun u => kvs.any (fun v => sWZero (rat == "1") pu pv Uu Uv su sv P u v)) then return "ERR"
       return showPts (surfaceGrid (rat == "1") pu pv (fn Uu) (fn Uv) su sv P kus kvs)
   | ["vgrid", rat, pu, pv, pw, uus, uvs, uws, su, sv, sw, ps, du, dv, dw] => do
       let pu ← pu.toNat?; let pv ← pv.toNat?; let pw ← pw.toNat?
@@ -248,6 +283,7 @@ def handleBasic : List String → Option String
       let kus := linspace (fn Uu pu) (fn Uu su) (sampleSize du) tolMult
       let kvs := linspace (fn Uv pv) (fn Uv sv) (sampleSize dv) tolMult
       let kws := linspace (fn Uw pw) (fn Uw sw) (sampleSize dw) tolMult
+      if kus.any (fun u => kvs.any (fun v => kws.any (fun w => vWZero (rat == "1") pu pv pw Uu Uv Uw su sv sw P u v w))) then return "ERR"
       return showPts (volumeGrid (rat == "1") pu pv pw (fn Uu) (fn Uv) (fn Uw) su sv sw P kus kvs kws)
   | _ => none
 
